@@ -3,8 +3,33 @@
   Property theorems only; helper lemmas live in Rtp/Proofs/H264*.lean.
 -/
 import Rtp.Proofs.H264Obs
+import Rtp.Proofs.H264Split
 namespace Rtp.Props.C10
 open Rtp Rtp.Model Rtp.Model.H264 Rtp.Model.H264.Obs Rtp.Spec.Rfc6184 Rtp.Pred Rtp.Proofs.H264
+
+/-! ### c10_split — the Annex-B splitter -/
+
+/-- Every Annex-B stream of well-formed NAL units (type 1–23, F = 0, ≥ 2 bytes, no start code
+    inside, no trailing zero byte — H.264 §7.4.1/B.1; the last two are forced: the code strips a
+    trailing 0x00 in front of a 3-byte start code), with any mix of 3- and 4-byte start codes, is
+    split into exactly those units.  No bound on sizes or on the number of units. -/
+theorem c10_split (units : List (Bool × Bytes)) (hne : units ≠ [])
+    (h : units.all (fun u => nalWF u.2) = true) :
+    emitNalus (annexB units) = units.map (·.2) :=
+  emitNalus_annexB units hne
+    (fun u hu => nalOk_of_wf u.2 (by simpa using (List.all_eq_true.mp h) u hu))
+
+/-- a buffer without any start code is one unit -/
+theorem c10_split_bare (n : Bytes) (h : nalWF n = true) : emitNalus n = [n] :=
+  emitNalus_bare n (nalOk_of_wf n h)
+
+/-- non-vacuity, and the two interpretations recorded in DESIGN §7: a trailing zero in front of a
+    3-byte start code is stripped (so `nalWF` has to exclude it) -/
+example : nalWF [0x65, 0, 0, 3, 1] = true := by decide
+example : emitNalus (annexB [(false, [0x65, 0, 0, 3, 1]), (true, [0x41, 0x9A])]) =
+    [[0x65, 0, 0, 3, 1], [0x41, 0x9A]] := by decide +kernel
+example : emitNalus (annexB [(false, [0x65, 7, 0]), (false, [0x41, 0x9A])]) =
+    [[0x65, 7], [0x41, 0x9A]] := by decide +kernel
 
 /-! ### c10_decoder — H264Packet decodes every RFC 6184 single / STAP-A / FU-A stream -/
 
